@@ -744,7 +744,13 @@ def confirm_with_tlc(b: dict[str, Any], root: str) -> tuple[str | None, str]:
     shutil.rmtree(d, ignore_errors=True)
     if r.error:
         raise MachineryError("TLC confirm failed: " + r.error)
-    return r.violated, r.trace_text[-6000:]
+    # the counterexample as the path through the function: [block label, op index] per step
+    path = []
+    for chunk in re.split(r"^State \d+:", r.trace_text, flags=re.M)[1:]:
+        mb, mi = re.search(r"/\\ blk = (\d+)", chunk), re.search(r"/\\ idx = (\d+)", chunk)
+        if mb and mi:
+            path.append("L%d.%d" % (int(mb.group(1)) - 1, int(mi.group(1))))
+    return r.violated, "path (block.op): " + " ".join(path) + "\n...\n" + r.trace_text[-1500:]
 
 
 def ir_text(prog: str, stage: str, fn: str, root: str) -> str:
